@@ -436,7 +436,9 @@ impl Server {
         let must_notify = history.update(
             report, exceptions, metrics,
         );
+        #[cfg(feature = "verif-hooks")] crate::verif::point("server:updated");
         history.mark_update_done();
+        #[cfg(feature = "verif-hooks")] crate::verif::point("server:marked-done");
         if log::max_level() >= log::Level::Info {
             let (metrics, serial, duration) = {
                 let history = history.read();
@@ -466,7 +468,23 @@ impl Server {
             info!("Sending out notifications.");
             notify.notify();
         }
+        #[cfg(feature = "verif-hooks")] crate::verif::point("server:notified");
         Ok(())
+    }
+
+    /// The server's per-run step, reachable for the verification harness.
+    #[cfg(feature = "verif-hooks")]
+    pub fn verif_process_once(
+        config: &Config,
+        engine: &Engine,
+        history: &SharedHistory,
+        notify: &mut NotifySender,
+        exceptions: &LocalExceptions,
+        initial: bool,
+    ) -> Result<(), RunFailed> {
+        Self::process_once(
+            config, engine, history, notify, exceptions, initial
+        )
     }
 }
 
